@@ -24,7 +24,8 @@ REPO = os.environ.get("VERIF_REPO", "/repo")
 WORK = os.path.join(VERIF, ".work")
 LEAN = os.path.join(VERIF, "lean")
 HARNESS = os.path.join(VERIF, "harness", "go")
-EVID = os.path.join(VERIF, "evidence")
+# Runs against a scratch copy (VERIF_REPO=/tmp/...) must not overwrite the evidence of /repo.
+EVID = os.path.join(VERIF, "evidence") if REPO == "/repo" else os.path.join(WORK, "evidence-alt", REPO.strip("/").replace("/", "_"))
 REPLAY = os.path.join(EVID, "replay")
 ALLOWED_AXIOMS = {"propext", "Classical.choice", "Quot.sound"}
 FORBIDDEN = re.compile(
